@@ -222,7 +222,8 @@ def run_case(case):
                 got[(remote, idx, round(tq, 9))] += 1
         # due times and queue times are compared with tolerance RES
         def near_sum(k, table):
-            return sum(c for kk, c in table.items() if kk[0] == k[0] and kk[1] == k[1] and abs(kk[2] - k[2]) < RES)
+            # timers less than RES apart fire in one iteration, at the earlier instant: neighbours within 2.5 RES are pooled
+            return sum(c for kk, c in table.items() if kk[0] == k[0] and kk[1] == k[1] and abs(kk[2] - k[2]) < 2.5 * RES)
 
         for k in got:
             c = near_sum(k, got)
